@@ -127,3 +127,7 @@ pub open spec fn replace_char_spec(s: Seq<char>, c: char, to: Seq<char>) -> Seq<
 }
 #[verifier::external_body]
 pub fn v_replace(s: &str, from: &str, to: &str) -> (r: String) ensures from@.len() == 1 ==> r@ == replace_char_spec(s@, from@[0], to@) { s.replace(from, to) }
+pub open spec fn bool_text(b: bool) -> Seq<char> { if b { "true"@ } else { "false"@ } }
+/// `v[k..].to_vec()` (std slicing panics when k > len: the precondition)
+#[verifier::external_body]
+pub fn v_tail_vec(v: &Vec<String>, k: usize) -> (r: Vec<String>) requires k <= v@.len() ensures r@ == v@.subrange(k as int, v@.len() as int) { v[k..].to_vec() }
